@@ -7,6 +7,7 @@ import (
 	"os"
 	"strings"
 	"sync"
+	"sync/atomic"
 	"time"
 
 	"github.com/yandex/mysync/internal/config"
@@ -19,22 +20,23 @@ import (
 // cannot reach a master whose health record is good does nothing in that iteration.
 
 type c05Spec struct {
-	N        int    `json:"n_ha"`
-	Casc     bool   `json:"cascade"`
-	SemiSync bool   `json:"semi_sync"`
-	W        int    `json:"wait_count"`
-	Failover bool   `json:"failover"`
-	DelayS   int    `json:"failover_delay_s"`
-	Resetup  bool   `json:"resetup_crashed_hosts"`
-	Maint    string `json:"maintenance"`   // none full_requested full_acked light
-	LastSw   string `json:"last_switch"`   // none auto_young auto_old manual_young
-	Master   string `json:"master_cond"`   // mysql_crash host_dead flapping ro_fs crash_recovered unreachable_from_manager zk_only_loss suspicious_between_bad
-	Replicas string `json:"replica_state"` // ok one_dead all_dead one_stopped one_status_fails
-	List     string `json:"active_list"`   // full master_plus_one
-	Handover bool   `json:"manager_handover"`
-	Rejected bool   `json:"manual_request_rejected_after_the_last_failover"` // last_rejected_switch holds a manual request initiated after the last (automatic) switch
-	Expect   string `json:"closed_gate_by_construction"`
-	Raced    bool   `json:"operator_request_lands_during_the_approval"` // an operator's request is created between the manager's look at the switch key and its own filing
+	N                 int    `json:"n_ha"`
+	Casc              bool   `json:"cascade"`
+	SemiSync          bool   `json:"semi_sync"`
+	W                 int    `json:"wait_count"`
+	Failover          bool   `json:"failover"`
+	DelayS            int    `json:"failover_delay_s"`
+	Resetup           bool   `json:"resetup_crashed_hosts"`
+	Maint             string `json:"maintenance"`   // none full_requested full_acked light
+	LastSw            string `json:"last_switch"`   // none auto_young auto_old manual_young
+	Master            string `json:"master_cond"`   // mysql_crash host_dead flapping ro_fs crash_recovered unreachable_from_manager zk_only_loss suspicious_between_bad
+	Replicas          string `json:"replica_state"` // ok one_dead all_dead one_stopped one_status_fails
+	List              string `json:"active_list"`   // full master_plus_one
+	Handover          bool   `json:"manager_handover"`
+	Rejected          bool   `json:"manual_request_rejected_after_the_last_failover"` // last_rejected_switch holds a manual request initiated after the last (automatic) switch
+	Expect            string `json:"closed_gate_by_construction"`
+	CooldownReadFails bool   `json:"reads_of_last_switch_fail_now_and_then"`     // inside the cool-down two of every three reads of last_switch fail with a connection error
+	Raced             bool   `json:"operator_request_lands_during_the_approval"` // an operator's request is created between the manager's look at the switch key and its own filing
 }
 
 var c05Masters = []string{"mysql_crash", "host_dead", "flapping", "ro_fs", "crash_recovered", "unreachable_from_manager", "zk_only_loss", "suspicious_between_bad"}
@@ -56,6 +58,7 @@ func c05Gen(seed int64, idx int) c05Spec {
 	case 4:
 		sp.LastSw, sp.Expect = "auto_young", "G7-cooldown"
 		sp.Rejected = r.Intn(2) == 0
+		sp.CooldownReadFails = (idx/(9*len(c05Masters)))%2 == 0
 	case 5:
 		sp.Replicas, sp.Expect = "all_dead", "G6-quorum"
 	case 6:
@@ -114,6 +117,9 @@ type c05Monitor struct {
 	Filed   int
 	Suspect int
 	curReq  string // initiated_by@initiated_at of the request in the switch key ("" = none)
+	// lastSwitchKnown is the content of last_switch as last written (by a daemon) or successfully read (by anybody): what
+	// the cool-down is judged against when the filing iteration's own read of the key failed
+	lastSwitchKnown string
 }
 
 func newC05Monitor(sc *Scen, sp c05Spec) *c05Monitor {
@@ -151,6 +157,11 @@ func newC05Monitor(sc *Scen, sp c05Spec) *c05Monitor {
 			_ = json.Unmarshal([]byte(res), &it.active)
 		case method == "Get" && path == "last_switch":
 			it.lastSwitch = res
+			if !strings.HasPrefix(res, "error") {
+				m.lastSwitchKnown = res
+			}
+		case (method == "Set" || method == "Create") && path == "last_switch" && res == "ok":
+			m.lastSwitchKnown = arg
 		case method == "GetChildren" && path == "ha_nodes":
 			_ = json.Unmarshal([]byte(res), &it.haNodes)
 		case method == "GetChildren" && path == "cascade_nodes":
@@ -366,16 +377,22 @@ func (m *c05Monitor) judgeFiling(inst string, it *c05Iter) {
 	if alive < quorum {
 		fail("G6", "only %d alive replicas within the active list %v answered it, quorum is %d", alive, it.active, quorum)
 	}
-	if it.lastSwitch != "" && it.lastSwitch != "notfound" {
+	lsw, lswNote := it.lastSwitch, ""
+	if strings.HasPrefix(lsw, "error") {
+		// the iteration could not read the key: the gate is judged against the content last written or read
+		lsw, lswNote = m.lastSwitchKnown, " - this iteration's own read of last_switch failed ("+it.lastSwitch+")"
+		m.sc.Cover("filed-after-a-failed-read-of-last_switch")
+	}
+	if lsw != "" && lsw != "notfound" {
 		var ls struct {
 			Cause  string `json:"cause"`
 			Result *struct {
 				FinishedAt time.Time `json:"finished_at"`
 			} `json:"result"`
 		}
-		if json.Unmarshal([]byte(strings.TrimSuffix(it.lastSwitch, "…")), &ls) == nil && ls.Cause == "auto" && ls.Result != nil {
+		if json.Unmarshal([]byte(strings.TrimSuffix(lsw, "…")), &ls) == nil && ls.Cause == "auto" && ls.Result != nil {
 			if age := time.Since(ls.Result.FinishedAt); age < cfg.FailoverCooldown {
-				fail("G7", "the last automatic failover finished only %v ago (cooldown %v)", age, cfg.FailoverCooldown)
+				fail("G7", "the last automatic failover finished only %v ago (cooldown %v)%s", age, cfg.FailoverCooldown, lswNote)
 			}
 		}
 	}
@@ -446,6 +463,18 @@ func c05Run(u *Unit) {
 					})
 				}
 			})
+		}
+		if sp.CooldownReadFails {
+			// two of every three reads of last_switch fail as a dropped connection would make them (the key is read only by
+			// approveFailover, after every other gate was found open)
+			var nRead atomic.Int64
+			s.DCSGate = func(name, method, path string) error {
+				if method == "Get" && path == "last_switch" && nRead.Add(1)%3 != 1 {
+					sc.Cover("read-of-last_switch-failed-inside-the-cooldown")
+					return fmt.Errorf("zk: connection closed (injected)")
+				}
+				return nil
+			}
 		}
 		s.Start()
 		time.Sleep(13 * time.Second)
